@@ -15,3 +15,4 @@ import Dnp3.Model.Pair
 import Dnp3.Driver.Pair
 import Dnp3.Driver.Attr
 import Dnp3.Driver.File70
+import Dnp3.Driver.FfiMeas
